@@ -4,7 +4,7 @@
 Require Import ZArith List String Bool Reals.
 Import ListNotations.
 From GLMV Require Import Expr SemR Cat Comm Chk SpecLinAlg SpecProj SpecGeom.
-From W Require Gen_C12 P_C12 P_C12_b P_C12_c.
+From W Require Gen_C12 P_C12 P_C12_b P_C12_c P_C12_d.
 Local Open Scope string_scope.
 Local Open Scope Z_scope.
 
@@ -39,9 +39,19 @@ Theorem C12_gtx_angle_4 : P_C12_c.angle_ok 4. Proof. exact P_C12_c.angle_4. Qed.
 Theorem C12_gtx_angle_scalar : P_C12_c.s_angle_ok. Proof. exact P_C12_c.s_angle_def. Qed.
 Theorem C12_gtx_orientedAngle_2 : P_C12_c.oriented2_ok. Proof. exact P_C12_c.oriented2_def. Qed.
 Theorem C12_gtx_orientedAngle_3 : P_C12_c.oriented3_ok. Proof. exact P_C12_c.oriented3_def. Qed.
+(* gtx norms, triangleNormal, orthonormalize, closestPointOnLine *)
+Theorem C12_gtx_l1Norm : P_C12_d.l1Norm_ok. Proof. exact P_C12_d.l1Norm_def. Qed.
+Theorem C12_gtx_l1Norm_of_difference : P_C12_d.l1Norm2_ok. Proof. exact P_C12_d.l1Norm2_def. Qed.
+Theorem C12_gtx_l2Norm : P_C12_d.l2Norm_ok. Proof. exact P_C12_d.l2Norm_def. Qed.
+Theorem C12_gtx_l2Norm_of_difference : P_C12_d.l2Norm2_ok. Proof. exact P_C12_d.l2Norm2_def. Qed.
+Theorem C12_gtx_triangleNormal_is_normalized_cross : P_C12_d.triangleNormal_ok. Proof. exact P_C12_d.triangleNormal_def. Qed.
+Theorem C12_gtx_orthonormalize_formula_and_orthogonality : P_C12_d.orthonormalize_ok. Proof. exact P_C12_d.orthonormalize_def. Qed.
+Theorem C12_gtx_closestPointOnLine_3 : P_C12_d.closest3_ok. Proof. exact P_C12_d.closest3_def. Qed.
+Theorem C12_gtx_closestPointOnLine_2 : P_C12_d.closest2_ok. Proof. exact P_C12_d.closest2_def. Qed.
 Print Assumptions C12_dot_is_sum_of_products.
 Print Assumptions C12_normalize_3.
 Print Assumptions C12_reflect_formula_isometry_involution.
 Print Assumptions C12_refract_3.
 Print Assumptions C12_faceforward_4.
 Print Assumptions C12_gtx_orientedAngle_3.
+Print Assumptions C12_gtx_orthonormalize_formula_and_orthogonality.
